@@ -124,6 +124,7 @@ def gen_loop_case(rng, flavour):
     script = []
     T = 0
     armed = {}          # (f, dir) -> possibly armed (generator's own conservative view: NoDoubleArm)
+    nonowner = set()    # devices that gave up ownership (close() then only cancels)
     closed = set()      # sockets the script itself has closed (and not re-opened): targets for device-wrapper ops
     started = [False]
     reusable = set()    # closed after start(): their number can be handed out again deterministically
@@ -170,9 +171,15 @@ def gen_loop_case(rng, flavour):
                 # close: for a pipe this is "the writer goes away" / "the reader goes away"; sometimes the application
                 # closes the raw descriptor itself and then cancels
                 f = rng.randrange(ndev)
+                if rng.random() < 0.15:
+                    # the device gives up ownership of its descriptor and is closed: waits cancelled, descriptor stays
+                    script.append(f"nc:{f}")
+                    nonowner.add(f)
+                    armed[(f, "ar")] = armed[(f, "aw")] = False
+                    continue
                 script.append(f"{'rx' if rng.random() < 0.3 else 'cl'}:{f}")
                 armed[(f, "ar")] = armed[(f, "aw")] = False
-                if f < ns:
+                if f < ns and f not in nonowner:
                     closed.add(f)
                     if started[0]:
                         reusable.add(f)
